@@ -35,6 +35,7 @@ type World struct {
 	entryC    map[*ssa.Function][]entryFact
 	EntryUsed map[string]int
 	lenRelC   map[string][]lenRel
+	condC     map[string][]condFact
 }
 
 func NewWorld(p *load.Program) *World {
